@@ -1,6 +1,8 @@
 import IsoMdl.Lemmas.Cbor
 import IsoMdl.Model.Wire
 import IsoMdl.Spec.Cddl
+import IsoMdl.Model.WireSchemas
+import IsoMdl.Lemmas.Schema
 /-
 C18 — Everything emitted conforms to the ISO 18013-5 message definitions.
 `Cddl.*` (Spec/Cddl.lean) is the validator written from the standard; `Wire.*.toCbor` is the model
@@ -78,5 +80,29 @@ example : Cddl.sessionData (.map [(Cddl.tx "Data", .bytes [1])]) = false := by d
 example : Cddl.sessionData (.map [(Cddl.tx "status", .uint 12)]) = false := by decide
 example : Cddl.sessionEstablishment (.map [(Cddl.tx "eReaderKey", .bytes [0xa0]), (Cddl.tx "data", .bytes [])]) = false := by
   decide
+
+/-! ### every wire structure, through the generic schema model -/
+section Schemas
+open IsoMdl.Schema IsoMdl.WireSchemas
+
+theorem C18_wire_schemas_wellformed : all.all (fun p => wfs p.2) = true := by decide +kernel
+
+/-- WHATEVER IS EMITTED CONFORMS: for every named wire structure (all 17, DeviceEngagement with
+its retrieval options included) and every input item the typed decoder accepts, the re-emitted
+item satisfies the structure's validator: exactly the declared keys in the declared order, every
+required field present, maps in key order without repeated keys, embedded items decodable to their
+own structure, arrays non-empty where the definition says so. -/
+theorem C18_wire_conforms (name : String) (s : Sch) (hs : (name, s) ∈ all) (c c' : Cbor)
+    (h : norm s c = some c') : conf s c' = true := by
+  have hw : wfs s = true := (List.all_eq_true.mp C18_wire_schemas_wellformed) (name, s) hs
+  exact norm_conf s c c' hw h
+
+/-- non-vacuity: the validator rejects a DeviceResponse without status, a map with a repeated
+key, and an empty `documents` array -/
+example : conf deviceResponse (.map [(tx "version", tx "1.0")]) = false := by decide +kernel
+example : conf (.dict .text .uint false) (.map [(tx "a", .uint 1), (tx "a", .uint 2)]) = false := by decide +kernel
+example : conf deviceResponse (.map [(tx "version", tx "1.0"), (tx "documents", .array []), (tx "status", .uint 0)]) = false := by decide +kernel
+example : conf deviceResponse (.map [(tx "version", tx "1.0"), (tx "status", .uint 0)]) = true := by decide +kernel
+end Schemas
 
 end IsoMdl.Wire
